@@ -466,6 +466,10 @@ func (tic *TermInCommittee) HandlePrepare(pm *interfaces.PrepareMessage) {
 		tic.logger.Info("LHMSG RECEIVED PREPARE IGNORE - verification failed for Prepare block-height=%v view=%d block-hash=%s err=%v", header.BlockHeight(), header.View(), header.BlockHash(), err)
 		return
 	}
+	if !proofsvalidator.IsInMembers(tic.committeeMembers, sender.MemberId()) {
+		tic.logger.Info("LHMSG RECEIVED PREPARE IGNORE - sender %s is not a member of the committee", Str(sender.MemberId()))
+		return
+	}
 	if header.View() < tic.State.View() {
 		tic.logger.Debug("LHMSG RECEIVED PREPARE IGNORE - prepare view %v is less than current term's view %v", header.View(), tic.State.View())
 		return
@@ -548,6 +552,10 @@ func (tic *TermInCommittee) HandleCommit(cm *interfaces.CommitMessage) {
 
 	if err := tic.keyManager.VerifyConsensusMessage(header.BlockHeight(), header.Raw(), sender); err != nil {
 		tic.logger.Info("LHMSG RECEIVED COMMIT IGNORE - verification failed for Commit block-height=%d view=%d block-hash=%s err=%v", header.BlockHeight(), header.View(), header.BlockHash(), err)
+		return
+	}
+	if !proofsvalidator.IsInMembers(tic.committeeMembers, sender.MemberId()) {
+		tic.logger.Info("LHMSG RECEIVED COMMIT IGNORE - sender %s is not a member of the committee", Str(sender.MemberId()))
 		return
 	}
 	tic.logger.Debug("LHMSG RECEIVED COMMIT STORE")
@@ -664,6 +672,10 @@ func (tic *TermInCommittee) isViewChangeValid(expectedLeaderFromNewView primitiv
 
 	if err := tic.keyManager.VerifyConsensusMessage(header.BlockHeight(), header.Raw(), sender); err != nil {
 		return errors.Wrapf(err, "keyManager.VerifyConsensusMessage failed")
+	}
+
+	if !proofsvalidator.IsInMembers(tic.committeeMembers, sender.MemberId()) {
+		return errors.Errorf("sender %s is not a member of the committee", Str(sender.MemberId()))
 	}
 
 	if !proofsvalidator.ValidatePreparedProof(tic.State.Height(), vcmView, preparedProof, tic.keyManager, tic.committeeMembers, func(view primitives.View) primitives.MemberId { return tic.calcLeaderMemberId(view) }) {
